@@ -150,7 +150,7 @@ def pyRun : PSet KAtom → List Cmd → List String
 def handle (line : String) : String :=
   match (clean line).splitOn "|" with
   | [kind, v, init, cmds] =>
-    if clean kind = "to" then
+    if clean kind = "to" ∨ clean kind = "tof" then   -- `tof`: the owner is alive but falsy (no difference)
       match innerTrait (clean v), atoms? init, (fields cmds ";").mapM parseCmd with
       | some v, some init, some cmds =>
         -- assignment of the initial value: Set.validate wraps it in a TraitSetObject, which validates the items
